@@ -324,6 +324,9 @@ def verify_contract(contract, want_smt_sample=True, log=None, shard=()):
                     verdict, m, dt2 = core.refute_small(ob.pc, ob.goal, ex.lengths)
                     dt += dt2
                 if verdict == "unknown":
+                    verdict, m, dt2 = core.refute_constant_world(ob.pc, ob.goal)
+                    dt += dt2
+                if verdict == "unknown":
                     verdict, m, dt2 = core.solve(ob.pc, ob.goal, contract.solver_timeout_ms, seed=7)
                     dt += dt2
                 res.time += dt
